@@ -137,7 +137,7 @@ def run(tier):
         kind = ['synthetic', 'en', 'ja'][d % 3]
         nsent = 26 if d % 2 == 0 else 8
         D = make_document(rng, kind, nsent)
-        add({'e': 'doc', 'g': d}, {'doc': d, 'kind': kind})
+        add({'e': 'doc', 'g': d + 1}, {'doc': d, 'kind': kind})
         solos = []
         for i in range(nsent):
             # every search of this check runs in a forked child of a parent process that has never parsed anything, so that a
@@ -148,7 +148,7 @@ def run(tier):
                 res = ['SOLO RUN FAILED: %s' % str(e)[:150]]
             dg = res[0] if len(res) == 1 else 'WRONG-NUMBER-OF-LISTS'
             solos.append(dg)
-            add({'e': 'solo', 'g': d, 'sid': i + 1, 'nlists': len(res), 'digest': dg, 'expect_fail': D['expect_fail'][i]},
+            add({'e': 'solo', 'g': d + 1, 'sid': i + 1, 'nlists': len(res), 'digest': dg, 'expect_fail': D['expect_fail'][i]},
                 {'doc': d, 'kind': kind, 'sentence': i, 'words': len(D['doc'][i]), 'solo': dg[:300]})
         # schedules from TLC (sentence ids 1..4 mapped onto sentences of this document), then random larger ones
         plans = []
@@ -181,7 +181,7 @@ def run(tier):
                 results = [str(e)[:200]]
             n_runs += 1
             n_mp += 1 if len(order) > mc else 0
-            add({'e': 'run', 'g': d, 'batch': [i + 1 for i in order], 'procs': procs, 'maxchunk': mc, 'raised': raised, 'results': results},
+            add({'e': 'run', 'g': d + 1, 'batch': [i + 1 for i in order], 'procs': procs, 'maxchunk': mc, 'raised': raised, 'results': results},
                 {'doc': d, 'kind': kind, 'order': order, 'processes': procs, 'max_chunk_size': mc, 'source': src, 'multiprocess': len(order) > mc,
                  'raised': results[0] if raised else ''})
         # the single-sentence calling form (a bare token list and a bare ScoringResult) is the same function
@@ -194,7 +194,7 @@ def run(tier):
             except (Hang, Machinery) as e:
                 raised, results = True, [str(e)[:100]]
             n_runs += 1
-            add({'e': 'run', 'g': d, 'batch': [i + 1], 'procs': 1, 'maxchunk': 1000, 'raised': raised, 'results': results},
+            add({'e': 'run', 'g': d + 1, 'batch': [i + 1], 'procs': 1, 'maxchunk': 1000, 'raised': raised, 'results': results},
                 {'doc': d, 'kind': kind, 'order': [i], 'processes': 1, 'max_chunk_size': 1000, 'source': 'single-sentence calling form', 'multiprocess': False,
                  'raised': results[0] if raised else ''})
         # shape mismatches must be rejected before any parsing
@@ -214,13 +214,13 @@ def run(tier):
                 h.parsing.run(doc, sc, list(cats), list(D['roots']), cb, cu, processes=1, max_chunk_size=1000, **D['kwargs'])
             except Exception:
                 raised = True
-            add({'e': 'shape', 'g': d, 'raised': raised, 'callbacks': cb.n + cu.n}, {'doc': d, 'kind': kind, 'mismatch': name, 'raised': raised, 'callbacks': cb.n + cu.n})
+            add({'e': 'shape', 'g': d + 1, 'raised': raised, 'callbacks': cb.n + cu.n}, {'doc': d, 'kind': kind, 'mismatch': name, 'raised': raised, 'callbacks': cb.n + cu.n})
         ok_raised = False
         try:
             run_forked(lambda: len(h.parsing.run([D['doc'][0]], [sc0], list(D['cats']), list(D['roots']), D['bin'], D['un'], processes=1, max_chunk_size=1000, **D['kwargs'])), 180)
         except (Hang, Machinery):
             ok_raised = True
-        add({'e': 'shape_ok', 'g': d, 'raised': ok_raised}, {'doc': d, 'kind': kind})
+        add({'e': 'shape_ok', 'g': d + 1, 'raised': ok_raised}, {'doc': d, 'kind': kind})
     rejects, stats = validate('traces/BatchTrace.tla', events, 'c11', per_shard=200, group='g')
     from ..trace import binding_demo
 
